@@ -724,7 +724,7 @@ func c02Gen(g *hx.Gen) {
 		}
 		g.Casef("fl %016x", math.Float64bits(v))
 	}
-	n := g.Scale(6000, 500000)
+	n := g.Scale(6000, 40000)
 	for k := 0; k < n && !g.Done(); k++ {
 		switch g.Intn(10) {
 		case 0, 1, 2, 3:
